@@ -49,6 +49,8 @@ def glyph_name(codepoints):
         hash = hashlib.sha1()  # don't care if secure
         hash.update(name.encode("utf-8"))
         name = base64.b32encode(hash.digest()).decode("utf-8")
-    if not name[0].isalpha():
+    # names that already start with g_ (the letter g followed by more codepoints) get
+    # the prefix too, otherwise (0x67, 0x1f600) and (0x1f600,) would both be g_1f600
+    if not name[0].isalpha() or name.startswith("g_"):
         name = "g_" + name
     return name
